@@ -17,6 +17,8 @@ class C03(ProgProp):
                    "xdis spells 'not-in', 'is-not', 'exception-match' with hyphens: compared by cmp_op index"]
 
     def fixed_cases(self, ctx):
+        for c in super().fixed_cases(ctx):
+            yield c
         from vf.props import c09
         for name in sorted(c09.tables(rw.xd())):
             yield {"k": "family", "table": name}
